@@ -36,6 +36,7 @@ import (
 	"math/big"
 	"net"
 	"os"
+	"reflect"
 	"runtime"
 	"runtime/pprof"
 	"sort"
@@ -1661,12 +1662,20 @@ func runT(f []string) string {
 
 func runCase(line string) string {
 	f := strings.Split(line, " ")
+	if len(f) == 4 && f[0] == "Y" {
+		res, _ := hx.Guard(10*deadline, func() string { return runYU(f) })
+		return f[1] + " " + res
+	}
 	if len(f) >= 3 && f[0] == "Y" {
 		res, _ := hx.Guard(10*deadline, func() string { return runY(f) })
 		return f[1] + " " + res
 	}
 	if len(f) == 6 && f[0] == "P" {
 		res, _ := hx.Guard(4*deadline, func() string { return runP(f) })
+		return f[1] + " " + res
+	}
+	if len(f) == 6 && f[0] == "Q" && f[2] == "bundle" {
+		res, _ := hx.Guard(4*deadline, func() string { return runBundle(f) })
 		return f[1] + " " + res
 	}
 	if len(f) == 5 && f[0] == "Q" {
@@ -1902,6 +1911,24 @@ func gen(seed uint64, tier string) []string {
 		} else {
 			lines = append(lines, genE(r, id))
 		}
+	}
+	// user-id histories on one key object (Y lines with an operation list); last, so that the earlier case lines of a seed stay what they were
+	nYU := 24
+	if tier == "thorough" {
+		nYU = 240
+	}
+	for i := 0; i < nYU; i++ {
+		id++
+		lines = append(lines, genYU(r, id, i))
+	}
+	// bundles read back through ParseCertificates (Q lines with six fields)
+	nB := 30
+	if tier == "thorough" {
+		nB = 300
+	}
+	for i := 0; i < nB; i++ {
+		id++
+		lines = append(lines, genBundle(r, id, i, clean))
 	}
 	return lines
 }
@@ -2727,6 +2754,418 @@ func runY(f []string) string {
 		fs = strings.Join(fails, ",")
 	}
 	return fmt.Sprintf("ok %d %d %s", len(objs), checks, fs)
+}
+
+// ------------------------------------------------------------------------------------------------
+// Y cases with an operation list (4 fields): USER-ID HISTORIES on ONE key object.  A single *sm2.PrivateKey (and the
+// *sm2.PublicKey inside it) goes through a list of operations: SM2 signatures, digests and verifications with
+// application-chosen user ids (GM/T 0009 allows any id; empty = default, the default id spelled out, other ids of 1..40
+// octets, a prefix of the default id, the default id plus one octet), a value copy of the key object, and in between the
+// issuing of certificates, requests, CRLs and RevocationLists with that same object.  Whatever was done with the key
+// object before, (i) every issued object verifies under the issuer's public key (taken from the parsed certificate / a
+// fresh public key value, never from the used object), at every later point of the history as well, (ii) a signature
+// made with user id u verifies under a fresh public key with u - and, for u not the default id, not with the default id -
+// and also through the used key object itself, (iii) Sm3Digest(msg, u) of the used object equals that of a fresh one.
+//
+//	Y <id> <scalar> <op>,<op>,...     op = s:<uid hex> | d:<uid hex> | v:<uid hex> | S | copy | cert | csr | crl | rl
+//	-> ok <objects> <checks> <failures>   failures = "-" or step<k>:<op>:<what> joined by ","
+
+var defaultUID = []byte("1234567812345678")
+
+func isDefaultUID(u []byte) bool { return len(u) == 0 || bytes.Equal(u, defaultUID) }
+
+func genUID(r *hx.Rng, nonDefault bool) []byte {
+	for {
+		var u []byte
+		switch r.Intn(8) {
+		case 0:
+			u = nil
+		case 1:
+			u = append([]byte(nil), defaultUID...)
+		case 2:
+			u = append([]byte(nil), defaultUID[:1+r.Intn(15)]...)
+		case 3:
+			u = append(append([]byte(nil), defaultUID...), byte(r.Intn(256)))
+		case 4:
+			u = []byte("alice@example.org")
+		default:
+			u = r.Bytes(1 + r.Intn(40))
+		}
+		if !nonDefault || !isDefaultUID(u) {
+			return u
+		}
+	}
+}
+
+func genYU(r *hx.Rng, id, i int) string {
+	cats := []string{"FULL", "X31", "Y31", "XY31", "X30", "Y30", "X29", "Y29"}
+	var scalar string
+	if i%3 == 2 {
+		d := r.Bytes(32)
+		d[0] &= 0x7f
+		d[31] |= 1
+		scalar = fmt.Sprintf("%x", d)
+	} else {
+		l := yShort[cats[(i/3)%len(cats)]]
+		scalar = l[r.Intn(len(l))]
+	}
+	uidOp := func(kind string, nonDefault bool) string { return kind + ":" + fmt.Sprintf("%x", genUID(r, nonDefault)) }
+	issue := []string{"cert", "csr", "crl", "rl"}
+	var ops []string
+	// systematic head: one operation with a non-default id of each kind (s, d, v by turns), then one object of each kind
+	// by turns; every fourth history issues first (the object must stay valid) and then uses a non-default id
+	head := uidOp([]string{"s", "d", "v"}[i%3], true)
+	first := issue[(i/3)%4]
+	if i%4 == 3 {
+		ops = append(ops, first, head, issue[(i/3+1)%4])
+	} else {
+		ops = append(ops, head, first)
+	}
+	n := 3 + r.Intn(5)
+	for j := 0; j < n; j++ {
+		switch r.Intn(9) {
+		case 0, 1:
+			ops = append(ops, uidOp("s", r.Intn(3) != 0))
+		case 2:
+			ops = append(ops, uidOp("d", r.Intn(3) != 0))
+		case 3:
+			ops = append(ops, uidOp("v", r.Intn(3) != 0))
+		case 4:
+			ops = append(ops, "S")
+		case 5:
+			ops = append(ops, "copy")
+		default:
+			ops = append(ops, issue[r.Intn(4)])
+		}
+	}
+	ops = append(ops, issue[r.Intn(4)])
+	return fmt.Sprintf("Y %d %s %s", id, scalar, strings.Join(ops, ","))
+}
+
+func runYU(f []string) string {
+	key := yKey(f[2]) // THE key object of the history
+	freshPub := func() *sm2.PublicKey { return &sm2.PublicKey{Curve: sm2.P256Sm2(), X: new(big.Int).Set(key.X), Y: new(big.Int).Set(key.Y)} }
+	freshKey := func() *sm2.PrivateKey { return yKey(f[2]) }
+	ops := strings.Split(f[3], ",")
+	var fails []string
+	checks, step := 0, 0
+	curOp := ""
+	fail := func(what string) {
+		if len(fails) < 12 {
+			fails = append(fails, fmt.Sprintf("step%d:%s:%s", step, strings.SplitN(curOp, ":", 2)[0], what))
+		}
+	}
+	expect := func(got, want bool, what string) {
+		checks++
+		if got != want {
+			fail(what)
+		}
+	}
+	type obj struct {
+		name  string
+		check func(ca *x509.Certificate) bool
+	}
+	var objs []obj
+	nb, na := time.Unix(1700000000, 0), time.Unix(1900000000, 0)
+	name := pkix.Name{CommonName: "uid history key", Organization: []string{"verif"}}
+	// the issuer certificate every verification goes through: issued by a FRESH key object for the same scalar and
+	// parsed, so that it does not depend on anything the history does
+	t0 := &x509.Certificate{SerialNumber: big.NewInt(99), Subject: name, NotBefore: nb, NotAfter: na, BasicConstraintsValid: true, IsCA: true,
+		KeyUsage: x509.KeyUsageCertSign | x509.KeyUsageCRLSign, SubjectKeyId: []byte{9, 7, 7}, SignatureAlgorithm: x509.SM2WithSM3}
+	fk := freshKey()
+	der0, err := x509.CreateCertificate(t0, t0, &fk.PublicKey, fk)
+	if err != nil {
+		return "err create-ref-ca:" + slug(err.Error())
+	}
+	refCA, err := x509.ParseCertificate(der0)
+	if err != nil {
+		return "err parse-ref-ca:" + slug(err.Error())
+	}
+	if refCA.CheckSignatureFrom(refCA) != nil {
+		return "err ref-ca-does-not-verify"
+	}
+	algos := []x509.SignatureAlgorithm{x509.SM2WithSM3, 0, x509.SM2WithSM3, x509.SM2WithSHA256}
+	for k, op := range ops {
+		step, curOp = k+1, op
+		msg := []byte(fmt.Sprintf("message %d of the history of %s", k, f[1]))
+		var uid []byte
+		if len(op) > 2 && op[1] == ':' {
+			uid = unhexOr(op[2:])
+		}
+		switch {
+		case strings.HasPrefix(op, "s:"):
+			r, s, err := sm2.Sm2Sign(key, msg, uid, rand.Reader)
+			if err != nil {
+				return "err sm2sign:" + slug(err.Error())
+			}
+			expect(sm2.Sm2Verify(freshPub(), msg, uid, r, s), true, "signature-does-not-verify-with-its-uid-under-fresh-public-key")
+			expect(sm2.Sm2Verify(&key.PublicKey, msg, uid, r, s), true, "signature-does-not-verify-with-its-uid-through-the-used-key-object")
+			expect(sm2.Sm2Verify(freshPub(), msg, nil, r, s), isDefaultUID(uid), "signature-verification-with-default-uid-wrong")
+		case strings.HasPrefix(op, "d:"):
+			a, e1 := key.Sm3Digest(msg, uid)
+			b, e2 := freshPub().Sm3Digest(msg, uid)
+			expect(e1 == nil && e2 == nil && bytes.Equal(a, b), true, "Sm3Digest-of-used-key-object-differs-from-fresh-key")
+		case strings.HasPrefix(op, "v:"):
+			r, s, err := sm2.Sm2Sign(freshKey(), msg, uid, rand.Reader)
+			if err != nil {
+				return "err sm2sign:" + slug(err.Error())
+			}
+			expect(sm2.Sm2Verify(&key.PublicKey, msg, uid, r, s), true, "valid-signature-rejected-through-the-used-key-object")
+			expect(sm2.Sm2Verify(&key.PublicKey, msg, nil, r, s), isDefaultUID(uid), "verification-with-default-uid-through-the-used-key-object-wrong")
+		case op == "S":
+			sig, err := key.Sign(rand.Reader, msg, nil)
+			if err != nil {
+				return "err sign:" + slug(err.Error())
+			}
+			expect(freshPub().Verify(msg, sig), true, "default-uid-signature-does-not-verify-under-fresh-public-key")
+			expect(key.PublicKey.Verify(msg, sig), true, "default-uid-signature-does-not-verify-through-the-used-key-object")
+		case op == "copy":
+			c := *key
+			key = &c
+		case op == "cert":
+			lt := &x509.Certificate{SerialNumber: big.NewInt(int64(300 + k)), Subject: pkix.Name{CommonName: fmt.Sprintf("leaf %d", k)},
+				NotBefore: nb, NotAfter: na, DNSNames: []string{"a.example.com"}, SignatureAlgorithm: algos[k%4]}
+			sub := yKey(yShort["FULL"][0])
+			der, err := x509.CreateCertificate(lt, refCA, &sub.PublicKey, key)
+			if err != nil {
+				return "err create-cert:" + slug(err.Error())
+			}
+			c, err := x509.ParseCertificate(der)
+			if err != nil {
+				return "err parse-cert:" + slug(err.Error())
+			}
+			objs = append(objs, obj{fmt.Sprintf("cert@%d", k+1), func(by *x509.Certificate) bool { return c.CheckSignatureFrom(by) == nil }})
+		case op == "csr":
+			d, err := x509.CreateCertificateRequest(rand.Reader, &x509.CertificateRequest{Subject: name, SignatureAlgorithm: algos[k%4]}, key)
+			if err != nil {
+				return "err create-csr:" + slug(err.Error())
+			}
+			q, err := x509.ParseCertificateRequest(d)
+			if err != nil {
+				return "err parse-csr:" + slug(err.Error())
+			}
+			objs = append(objs, obj{fmt.Sprintf("csr@%d", k+1), func(by *x509.Certificate) bool {
+				p, ok := q.PublicKey.(*ecdsa.PublicKey)
+				w, ok2 := by.PublicKey.(*ecdsa.PublicKey)
+				return ok && ok2 && p.X.Cmp(w.X) == 0 && p.Y.Cmp(w.Y) == 0 && q.CheckSignature() == nil
+			}})
+		case op == "crl":
+			d, err := refCA.CreateCRL(rand.Reader, key, []pkix.RevokedCertificate{{SerialNumber: big.NewInt(5), RevocationTime: nb}}, nb, na)
+			if err != nil {
+				return "err create-crl:" + slug(err.Error())
+			}
+			l, err := x509.ParseDERCRL(d)
+			if err != nil {
+				return "err parse-crl:" + slug(err.Error())
+			}
+			objs = append(objs, obj{fmt.Sprintf("crl@%d", k+1), func(by *x509.Certificate) bool { return by.CheckCRLSignature(l) == nil }})
+		case op == "rl":
+			d, err := x509.CreateRevocationList(rand.Reader, &x509.RevocationList{Number: big.NewInt(int64(k + 1)), ThisUpdate: nb, NextUpdate: na,
+				SignatureAlgorithm: algos[k%4]}, refCA, key)
+			if err != nil {
+				return "err create-rl:" + slug(err.Error())
+			}
+			l, err := x509.ParseDERCRL(d)
+			if err != nil {
+				return "err parse-rl:" + slug(err.Error())
+			}
+			objs = append(objs, obj{fmt.Sprintf("rl@%d", k+1), func(by *x509.Certificate) bool { return by.CheckCRLSignature(l) == nil }})
+		default:
+			return "err bad-op:" + slug(op)
+		}
+		// after EVERY operation: all objects issued so far verify under the issuer's public key
+		for _, o := range objs {
+			checks++
+			if !o.check(refCA) {
+				if len(fails) < 12 {
+					fails = append(fails, fmt.Sprintf("step%d:%s:does-not-verify-under-issuer-key-after-%s", step, o.name, strings.SplitN(curOp, ":", 2)[0]))
+				}
+			}
+		}
+	}
+	fs := "-"
+	if len(fails) > 0 {
+		fs = strings.Join(fails, ",")
+	}
+	return fmt.Sprintf("ok %d %d %s", len(objs), checks, fs)
+}
+
+func unhexOr(s string) []byte {
+	b := make([]byte, len(s)/2)
+	for i := range b {
+		v, err := strconv.ParseUint(s[2*i:2*i+2], 16, 8)
+		if err != nil {
+			panic("bad hex in case line")
+		}
+		b[i] = byte(v)
+	}
+	return b
+}
+
+// ------------------------------------------------------------------------------------------------
+// Q cases with six fields: BUNDLES.  Several issued certificates are concatenated (as in a PKCS#7 / PKCS#12 certificate bag)
+// and read back through ParseCertificates; every certificate of the bundle must come back with the field values of ITS OWN
+// template (the same field-by-field comparison as in T cases), whatever stands before or after it, and equal to what
+// ParseCertificate gives for the same bytes.  Element kinds: r = random template of genCert (extensions of every kind),
+// b = self-signed from a template that uses NO optional field (no extension at all), n = the same under a parent that has no
+// SubjectKeyId (so no AuthorityKeyId either), k = KeyUsage only, under such a parent.
+//
+//	Q <id> bundle <signer> <algo> <kind>:<tseed>,<kind>:<tseed>,...
+//	-> ok <certificates> <checks> <failures>   failures = "-" or cert<i><kind>:<what>:<fields> joined by ","
+
+func bundleSpec(kind string, tseed uint64, signer string) *certSpec {
+	s := genCert(tseed, signer)
+	if kind == "r" {
+		return s
+	}
+	t := &certSpec{kuOverride: -1, serial: s.serial, subj: s.subj, nb: s.nb, na: s.na, subjKey: 2, maxPath: 0}
+	switch kind {
+	case "b":
+		t.selfSigned = true
+	case "k":
+		t.ku = 1 + int(tseed%0x1ff)
+	}
+	return t
+}
+
+func certDiffFields(a, b *x509.Certificate) []string {
+	var d []string
+	va, vb := reflect.ValueOf(*a), reflect.ValueOf(*b)
+	for i := 0; i < va.NumField(); i++ {
+		if !reflect.DeepEqual(va.Field(i).Interface(), vb.Field(i).Interface()) {
+			d = append(d, va.Type().Field(i).Name)
+		}
+	}
+	return d
+}
+
+func genBundle(r *hx.Rng, id, i int, clean func(kind, signer string) uint64) string {
+	signer := []string{"sm2", "sm2", "p256"}[i%3]
+	algo := 0
+	if signer == "sm2" && i%2 == 0 {
+		algo = 16
+	}
+	// systematic shapes first (with-extensions then without, and the reverse; bare ones only; three and more), then random ones
+	shapes := [][]string{{"r", "b"}, {"b", "r"}, {"r", "n"}, {"n", "r"}, {"k", "b"}, {"b", "k"}, {"b", "n"}, {"r", "b", "r", "n"}, {"r", "r", "b"}, {"b"}, {"n", "b", "k", "r", "b"}, {"r", "k", "n"}}
+	var sh []string
+	if i < len(shapes) {
+		sh = shapes[i]
+	} else {
+		n := 2 + r.Intn(5)
+		for j := 0; j < n; j++ {
+			sh = append(sh, []string{"r", "r", "b", "n", "k"}[r.Intn(5)])
+		}
+	}
+	var el []string
+	for _, k := range sh {
+		t := clean("cert", signer)
+		if k == "r" { // an element meant to HAVE extensions: a template of the richer kinds
+			for genCert(t, signer).rich == 0 {
+				t = clean("cert", signer)
+			}
+		}
+		el = append(el, fmt.Sprintf("%s:%d", k, t))
+	}
+	return fmt.Sprintf("Q %d bundle %s %d %s", id, signer, algo, strings.Join(el, ","))
+}
+
+func runBundle(f []string) string {
+	signer := f[3]
+	algo, _ := strconv.Atoi(f[4])
+	if e := W.err[signer]; e != "" {
+		return "err " + e
+	}
+	key := signerOf(signer)
+	issA := W.iss[signer][0]
+	noKid := *issA // a parent without SubjectKeyId: what it issues has no AuthorityKeyId
+	noKid.SubjectKeyId = nil
+	type el struct {
+		kind   string
+		spec   *certSpec
+		der    []byte
+		single *x509.Certificate
+		issuer *x509.Certificate
+		subj   *sm2.PublicKey
+	}
+	var els []el
+	var bundle []byte
+	for _, e := range strings.Split(f[5], ",") {
+		kv := strings.SplitN(e, ":", 2)
+		if len(kv) != 2 {
+			return "err bad-element"
+		}
+		tseed, _ := strconv.ParseUint(kv[1], 10, 64)
+		s := bundleSpec(kv[0], tseed, signer)
+		subj := &W.sm2k[s.subjKey].PublicKey
+		tmpl := s.template(algo)
+		parent := issA
+		if kv[0] == "n" || kv[0] == "k" {
+			parent = &noKid
+		}
+		if s.selfSigned {
+			parent, subj = tmpl, &W.sm2k[0].PublicKey
+		}
+		der, err := x509.CreateCertificate(tmpl, parent, subj, key)
+		if err != nil {
+			return "err create:" + kv[0] + ":" + slug(err.Error())
+		}
+		p, err := x509.ParseCertificate(der)
+		if err != nil {
+			return "err parse:" + kv[0] + ":" + slug(err.Error())
+		}
+		issuer := parent
+		if s.selfSigned {
+			issuer = p
+		}
+		els = append(els, el{kv[0], s, der, p, issuer, subj})
+		bundle = append(bundle, der...)
+	}
+	certs, err := x509.ParseCertificates(bundle)
+	if err != nil {
+		return "err parse-bundle:" + slug(err.Error())
+	}
+	var fails []string
+	checks := 1
+	fail := func(i int, what string, d []string) {
+		if len(fails) < 12 {
+			if len(d) > 6 {
+				d = append(d[:6:6], "more")
+			}
+			fails = append(fails, fmt.Sprintf("cert%d%s:%s:%s", i, els[i].kind, what, strings.Join(d, "+")))
+		}
+	}
+	if len(certs) != len(els) {
+		return fmt.Sprintf("ok %d %d bundle-has-%d-certificates", len(els), checks, len(certs))
+	}
+	for i, e := range els {
+		checks += 4
+		if d := e.spec.compare(e.single, e.issuer, signer, algo, e.subj); len(d) > 0 {
+			fail(i, "ParseCertificate-differs-from-template", d)
+		}
+		if d := e.spec.compare(certs[i], e.issuer, signer, algo, e.subj); len(d) > 0 {
+			fail(i, "ParseCertificates-differs-from-template", d)
+		}
+		if !bytes.Equal(certs[i].Raw, e.der) {
+			fail(i, "ParseCertificates-raw-bytes-differ", nil)
+		} else if d := certDiffFields(e.single, certs[i]); len(d) > 0 {
+			fail(i, "ParseCertificates-differs-from-ParseCertificate", d)
+		}
+		// the bare kinds carry no extension at all
+		if e.kind == "b" || e.kind == "n" {
+			if len(certs[i].Extensions) != 0 || len(e.single.Extensions) != 0 {
+				fail(i, "extension-less-template-came-back-with-extensions", nil)
+			}
+		}
+		// issA holds the public key of the signer of every element (also of the self-signed ones)
+		if issA.CheckSignature(certs[i].SignatureAlgorithm, certs[i].RawTBSCertificate, certs[i].Signature) != nil {
+			fail(i, "certificate-from-bundle-does-not-verify-under-issuer", nil)
+		}
+	}
+	fs := "-"
+	if len(fails) > 0 {
+		fs = strings.Join(fails, ",")
+	}
+	return fmt.Sprintf("ok %d %d %s", len(els), checks, fs)
 }
 
 // ------------------------------------------------------------------------------------------------
